@@ -28,6 +28,7 @@ type verifChan struct {
 	sendFail      int         // fail the k-th Send (1-based); 0 = never
 	sends         int
 	afterClose    int // Sends after Close
+	sendGate      chan struct{} // when set, every Send waits for it
 }
 
 func newVerifChan(owner *sync.Mutex, closeUnblocks bool) *verifChan {
@@ -39,7 +40,7 @@ func (c *verifChan) Send(b []byte) error {
 	vassert(c.inSend == 1, "C10: two Send calls in progress at once")
 	vassert(c.inClose == 0, "C10: Send overlaps Close")
 	if c.owner != nil {
-		vassert(lockHeld(c.owner), "C10: Send outside the owner's mutex")
+		vassert(lockHeldAny(c.owner), "C10: Send outside the owner's mutex")
 	}
 	// C10: every record is one complete JSON-RPC message
 	tok, ok := tokParse(b)
@@ -50,6 +51,9 @@ func (c *verifChan) Send(b []byte) error {
 		for _, e := range elems {
 			vassert(tokKind(e) == tkObject, "C10: ... of objects")
 		}
+	}
+	if c.sendGate != nil {
+		<-c.sendGate // a stalled transport
 	}
 	vyield()
 	c.sends++
@@ -88,7 +92,7 @@ func (c *verifChan) Close() error {
 	c.inClose++
 	vassert(c.inSend == 0, "C10: Close overlaps Send")
 	if c.owner != nil {
-		vassert(lockHeld(c.owner), "C10: Close outside the owner's mutex")
+		vassert(lockHeldAny(c.owner), "C10: Close outside the owner's mutex")
 	}
 	c.closes++
 	vassert(c.closes == 1, "C10: Close called more than once per Start/NewClient")
